@@ -277,3 +277,18 @@ MUTANTS += [
     REV('revert-nullsym-leak-fix', 'C08', '7a98622', 'R-OWN-LOCAL'),
     REV('revert-rs-setavail-flag', 'C10', 'ca0e02f', 'R-'),
 ]
+
+SYM = 'src/lib_common/linear_binary_codes_utils/of_symbol.c'
+A28C = 'src/lib_stable/reed-solomon_gf_2_m/galois_field_codes_utils/algebra_2_8.c'
+A24C = 'src/lib_stable/reed-solomon_gf_2_m/galois_field_codes_utils/algebra_2_4.c'
+MUTANTS += [
+    # ---- C13 (kernels)
+    M('kern-tail-mod8', 'C13', SYM, '	symbolSize32rem = symbol_size % 4;	// Remaining bytes when the symbol', '	symbolSize32rem = symbol_size % 8;	// Remaining bytes when the symbol', 'R-KEA', count=3),
+    M('kern-32step-le', 'C13', SYM, '	if ( (symbolSize64 << 1) < symbolSize32)\n	{\n		* (UINT32*) t32 ^= * (UINT32*) f32;', '	if ( (symbolSize64 << 1) <= symbolSize32)\n	{\n		* (UINT32*) t32 ^= * (UINT32*) f32;', 'R-KEA', count=3),
+    M('kern-gf8-lim', 'C13', A28C, '	lim += UNROLL - 1 ;', '	lim += UNROLL - 2 ;', 'R-KEA'),
+    M('kern-gf8-lane', 'C13', A28C, '((UINT64)__gf_mulc_[src[3]]<<24) | ((UINT64)__gf_mulc_[src[4]]<<32)', '((UINT64)__gf_mulc_[src[3]]<<24) | ((UINT64)__gf_mulc_[src[3]]<<32)', 'R-KEA', count=1),
+    M('kern-gf4-compact-nibble', 'C13', A24C, '#define GF_ADDMULC_COMPACT(dst,x)	{dst = (dst>>4 ^ __gf_mulc_[x>>4])<<4 |(dst & 0x0F ^ __gf_mulc_[x & 0x0F]); }', '#define GF_ADDMULC_COMPACT(dst,x)	{dst = (dst>>4 ^ __gf_mulc_[x>>4])<<4 |(dst & 0x0F ^ __gf_mulc_[x>>4]); }', 'R-KEA'),
+    M('kern-multi-from-size', 'C13', SYM, '		from_size-=8;\n		from+=8;', '		from_size-=8;\n		from+=7;', 'R-KEA', count=1),
+    M('kern-rs8-addmul-unroll', 'C13', RS8C, '	gf *lim = &dst[sz - UNROLL + 1] ;', '	gf *lim = &dst[sz - UNROLL + 2] ;', 'R-KEA', count=2),
+    M('benign-kern-loop-form', 'C13', SYM, '	for (i = symbolSize64; i > 0; i--)\n	{\n		*t ^= *f;\n		t++;\n		f++;\n	}', '	for (i = 0; i < symbolSize64; i++)\n	{\n		*t ^= *f;\n		t++;\n		f++;\n	}', expect=0, count=3),
+]
